@@ -3,7 +3,7 @@
    coordinates ([rect], [cf2d_given_cell], [cf2d_synth_cell], [arakawa_cell], [ugrid_face]); these theorems say at
    which position each cell's polygon sits, when a cell has none, and what the synthesised bounds are. *)
 From Coq Require Import ZArith QArith List Bool.
-From EV Require Import Base.Index Base.Geom Model.Polygons Proofs.PolygonsP.
+From EV Require Import Base.Index Base.Geom Model.Polygons Proofs.PolygonsP Proofs.PolygonsP2.
 Import ListNotations.
 Open Scope Z_scope.
 
@@ -67,3 +67,37 @@ Print Assumptions C06_mask_iff.
 Theorem C06_kept_polygon_unchanged : forall ps n r, nth n (finalize ps) None = Some r -> nth n ps None = Some r.
 Proof. exact finalize_keeps. Qed.
 Print Assumptions C06_kept_polygon_unchanged.
+
+(* ---- which stored bounds the CF grid conventions use ---- *)
+
+(* a stored bounds variable is used exactly when it is laid out (y, x, 4 vertices) / (axis, 2 ends) *)
+Theorem C06_cf2d_bounds_accepted_iff : forall ydim xdim dims sz,
+  cf2d_bounds_ok ydim xdim dims sz = true <-> (exists d, dims = [ydim; xdim; d]) /\ sz = 4.
+Proof. exact cf2d_bounds_ok_iff. Qed.
+Print Assumptions C06_cf2d_bounds_accepted_iff.
+
+Theorem C06_cf1d_bounds_accepted_iff : forall cdim dims sz,
+  cf1d_bounds_ok cdim dims sz = true <-> (exists d, dims = [cdim; d]) /\ sz = 2.
+Proof. exact cf1d_bounds_ok_iff. Qed.
+Print Assumptions C06_cf1d_bounds_accepted_iff.
+
+(* bounds in any other layout play no part: the cells are those derived from the centres (never a reshaped or
+   transposed reading of the stored numbers) *)
+Theorem C06_cf2d_refused_bounds_ignored : forall ny nx ydim xdim lon lat lonb latb,
+  refused2 ydim xdim lonb -> refused2 ydim xdim latb ->
+  cf2d_raw ny nx ydim xdim lon lat lonb latb = cf2d_synth_raw ny nx lon lat.
+Proof. exact cf2d_refused_ignored. Qed.
+Print Assumptions C06_cf2d_refused_bounds_ignored.
+
+Theorem C06_cf2d_accepted_bounds_used : forall ny nx ydim xdim lon lat lonb latb vx vy,
+  accepted2 ydim xdim lonb vx -> accepted2 ydim xdim latb vy ->
+  cf2d_raw ny nx ydim xdim lon lat lonb latb = cf2d_given_raw ny nx vx vy.
+Proof. exact cf2d_accepted_used. Qed.
+Print Assumptions C06_cf2d_accepted_bounds_used.
+
+Theorem C06_cf1d_refused_bounds_ignored : forall ydim xdim lon lat lonb latb,
+  refused1 xdim lonb -> refused1 ydim latb ->
+  cf1d_polys ydim xdim lon lat lonb latb =
+  match cf1d_synth lon, cf1d_synth lat with Some xb, Some yb => Some (cf1d_raw xb yb) | _, _ => None end.
+Proof. exact cf1d_refused_ignored. Qed.
+Print Assumptions C06_cf1d_refused_bounds_ignored.
